@@ -52,3 +52,12 @@ Print Assumptions C07_masked_close_refuted.
 Example C07_nonvacuous : (fun i o => c07_ok i o && c07_isolation_ok i o) ((2%nat, [{| st_chan := 1%nat; st_op := AIdle; st_script := [[(1%nat, {| f_name := NChClose; f_num := (404)%Z; f_str := ([]%N) |})]] |}; {| st_chan := 1%nat; st_op := AAck; st_script := [] |}; {| st_chan := 2%nat; st_op := (ARpc 0%nat); st_script := [[(2%nat, {| f_name := NDeclareOk; f_num := (1)%Z; f_str := ([]%N) |})]] |}; {| st_chan := 2%nat; st_op := AIdle; st_script := [[(2%nat, {| f_name := NReturn; f_num := (312)%Z; f_str := ([]%N) |}); (2%nat, {| f_name := NHeader; f_num := (0)%Z; f_str := ([]%N) |})]] |}; {| st_chan := 2%nat; st_op := AAck; st_script := [] |}; {| st_chan := 2%nat; st_op := AAck; st_script := [] |}]))
   (chan_model ((2%nat, [{| st_chan := 1%nat; st_op := AIdle; st_script := [[(1%nat, {| f_name := NChClose; f_num := (404)%Z; f_str := ([]%N) |})]] |}; {| st_chan := 1%nat; st_op := AAck; st_script := [] |}; {| st_chan := 2%nat; st_op := (ARpc 0%nat); st_script := [[(2%nat, {| f_name := NDeclareOk; f_num := (1)%Z; f_str := ([]%N) |})]] |}; {| st_chan := 2%nat; st_op := AIdle; st_script := [[(2%nat, {| f_name := NReturn; f_num := (312)%Z; f_str := ([]%N) |}); (2%nat, {| f_name := NHeader; f_num := (0)%Z; f_str := ([]%N) |})]] |}; {| st_chan := 2%nat; st_op := AAck; st_script := [] |}; {| st_chan := 2%nat; st_op := AAck; st_script := [] |}]))) = true.
 Proof. vm_compute. reflexivity. Qed.
+
+(* ---------- reader thread vs. callers ---------- *)
+From AV Require Import Model.Src Gen.GenSrc Model.SrcShape.
+(* read off the source on every run: _close_channel records the broker's reason
+   before the channel reads as closed; check_for_errors looks at the recorded
+   reasons again once it has seen the channel closed *)
+Theorem C07_source_reason_before_closed : chclose_shape_ok = true.
+Proof. vm_compute. reflexivity. Qed.
+Print Assumptions C07_source_reason_before_closed.
